@@ -5,7 +5,8 @@
    returned v, where v is written with the textbook functions of lib/Str.v and C13_Text.v. *)
 From Coq Require Import NArith ZArith Bool List.
 From CppUVerif Require Import lib.CMem lib.CMemFacts gen.Gen_LoopC13.   (* before the model: its Ok/Oob/NoFuel are the unqualified ones below *)
-From CppUVerif Require Import lib.Str lib.CSem gen.Gen_LeafC13 C13_Text C13_Model C13_Proofs C13_Replace C13_Printable C13_Concat C13_Alloc C13_Atoi C13_Main C13_LeafTie.
+From CppUVerif Require Import lib.Str lib.CSem gen.Gen_LeafC13 C13_Text C13_Model C13_Proofs C13_Replace C13_Printable C13_Concat C13_Alloc C13_Atoi C13_Main C13_LeafTie
+                              C13_Pool C13_PoolProofs C13_Life C13_LifeProofs.
 From CppUVerif Require Import C13_SrcTie C13_SrcTie2 C13_SrcTie3 C13_SrcTie4 C13_SrcSpec C13_SrcSpec2 C13_SrcSpec3 C13_SrcSpec4.
 Import ListNotations.
 Local Open Scope N_scope.
@@ -195,6 +196,69 @@ Print Assumptions C13_run_safe.
 Theorem C13_run_meets_spec : forall o, valid o = true -> spec o (run o) = true.
 Proof. exact run_meets_spec. Qed.
 Print Assumptions C13_run_meets_spec.
+
+(* ---------------- life cycle: allocation pairing observed on every operation, on the objects alive at the end, on sequences *)
+(* ANY number of objects sharing the string allocator, any interleaving of their buffer-management primitives (arguments, results
+   and temporaries of every public operation, operation sequences on the same objects), all objects destroyed at the end: every
+   buffer is returned exactly once and with the size it was requested with *)
+Theorem C13_pool_pairing : forall n ops, paired (pool_log n ops) = true.
+Proof. exact pool_pairing. Qed.
+Print Assumptions C13_pool_pairing.
+
+(* padStringsToSameLength on strings of la and lb bytes (both arguments constructed, padded, destroyed): its event log is paired *)
+Theorem C13_pad_paired : forall la lb, paired (pad_log la lb) = true.
+Proof. exact pad_paired. Qed.
+Print Assumptions C13_pad_paired.
+
+(* the seeded variant (padded block of M + 1 bytes adopted with setInternalBufferTo(padded, M)) is not, as soon as something is padded *)
+Theorem C13_pad_wrong_size_refuted : ~ (forall la lb, paired (pad_log_wrong la lb) = true).
+Proof. exact pad_wrong_refuted. Qed.
+Print Assumptions C13_pad_wrong_size_refuted.
+
+Theorem C13_pad_wrong_size_unseen_without_padding : forall la, paired (pad_log_wrong la la) = true.
+Proof. exact pad_wrong_same_length. Qed.
+Print Assumptions C13_pad_wrong_size_unseen_without_padding.
+
+Theorem C13_repeat_spec : forall s r k, NN s -> newRepeat (s ++ 0 :: r) k = Ok (t_concat_rep s k ++ [0]).
+Proof. exact newRepeat_ok. Qed.
+Print Assumptions C13_repeat_spec.
+
+(* both strings, any pad character but NUL: the shorter one gets the pad characters in front, the other is untouched *)
+Theorem C13_pad_spec : forall a ra b rb ch, NN a -> NN b -> ch <> 0 ->
+  pad_m (a ++ 0 :: ra) (b ++ 0 :: rb) ch = Ok (pad_bufs a ra b rb ch).
+Proof. exact pad_ok. Qed.
+Print Assumptions C13_pad_spec.
+
+(* replace(const char*, const char* ) hands over a buffer of exactly the new length + 1 *)
+Theorem C13_replaceStr_exact_buffer : forall a to w, NN a -> NN to -> NN w -> replaceStr_m (cs a) (cs to) (cs w) = Ok (cs (t_replace a to w)).
+Proof. exact replaceStr_exact. Qed.
+Print Assumptions C13_replaceStr_exact_buffer.
+
+(* every SEQUENCE of the 13 sequence operations applied to the same three objects: each step is Ok and the objects hold exactly
+   the C strings of the textbook state *)
+Theorem C13_sequence_spec : forall ops strs, Forall OKS strs -> forallb valid_sop ops = true ->
+  mrun (map cs strs) ops = Ok (map cs (fold_left t_sstep ops strs)) /\ Forall OKS (fold_left t_sstep ops strs).
+Proof. exact mrun_ok. Qed.
+Print Assumptions C13_sequence_spec.
+
+(* the scenario language of the check (C13_Life.v): the pairing verdict of EVERY scenario is true ... *)
+Theorem C13_scn_paired : forall s, o_paired (run_scn s) = true.
+Proof. exact pairing_scn_ok. Qed.
+Print Assumptions C13_scn_paired.
+
+(* ... and the executable oracle accepts the model observation of every valid scenario whose value clause is proved (all but split,
+   subStringFromTill and the bit / binary formatters, whose values the check only compares and judges on its runs) *)
+Theorem C13_scn_meets_spec : forall s, valid_scn s = true -> value_proved s = true -> spec_scn s (run_scn s) = true.
+Proof. exact scn_meets_spec. Qed.
+Print Assumptions C13_scn_meets_spec.
+
+Theorem C13_scn_safe : forall s, valid_scn s = true -> value_proved s = true -> o_val (run_scn s) <> VErr.
+Proof. exact scn_safe. Qed.
+Print Assumptions C13_scn_safe.
+
+Theorem C13_scn_embeds_operations : forall o, run_scn (SOp o) = run o /\ valid_scn (SOp o) = valid o /\ forall ob, spec_scn (SOp o) ob = spec o ob.
+Proof. exact scn_embeds. Qed.
+Print Assumptions C13_scn_embeds_operations.
 
 (* the character predicates and ToLower of the model ARE the source: equal, on every char value, to the definitions that
    tools/cxx2coq.py regenerates from clang's AST of SimpleString.cpp on every run (gen/Gen_Leaf.v) *)
